@@ -101,6 +101,18 @@ def _invisible_outside(func, inside, names):
     return ok[0]
 
 
+def _returned_next(func, loop, x):
+    """the statement after `loop` in its block is `return x`"""
+    for n in ast.walk(func):
+        for fld in ('body', 'orelse', 'finalbody'):
+            blk = getattr(n, fld, None)
+            if isinstance(blk, list) and loop in blk:
+                i = blk.index(loop)
+                return i + 1 < len(blk) and isinstance(blk[i + 1], ast.Return) and \
+                    isinstance(blk[i + 1].value, ast.Name) and blk[i + 1].value.id == x
+    return False
+
+
 def _try_loop(func, init, loop):
     """the comprehension statement replacing (init, loop), or None"""
     if not (isinstance(init, ast.Assign) and len(init.targets) == 1 and isinstance(init.targets[0], ast.Name)
@@ -136,8 +148,11 @@ def _try_loop(func, init, loop):
         key, elt = kv
         if any(n.id == x for n in _names(key)):
             return None
-        # only a dictionary that is complete after the loop: one that is filled further (x[k] = v, x.update(...))
-        # stays a dictionary under construction, which is how the rules read it
+        # only a dictionary that is complete after the loop and is what the function returns (`return x` follows the
+        # loop): the shape of a small building helper.  One that is filled further (x[k] = v, x.update(...)) or placed
+        # in a larger result stays a dictionary under construction, which is how the rules read it
+        if not _returned_next(func, loop, x):
+            return None
         inside_ = {id(n) for n in ast.walk(loop)} | {id(n) for n in ast.walk(init)}
         for n in ast.walk(func):
             if id(n) in inside_:
